@@ -281,7 +281,16 @@ func checkC16(c *Ctx) {
 		sd := s.(*ssa.Send)
 		mk, isMk := root(sd.X).(*ssa.MakeSlice)
 		okCopy := false
-		if isMk && mk.Len == nVal {
+		lenOK := isMk && stripConv(mk.Len) == nVal
+		if isMk && !lenOK {
+			// len(readBuffer[:n]) is n
+			if lc, ok := stripConv(mk.Len).(*ssa.Call); ok {
+				if b, isB := lc.Call.Value.(*ssa.Builtin); isB && b.Name() == "len" && len(lc.Call.Args) == 1 && isBufPrefix(lc.Call.Args[0]) {
+					lenOK = true
+				}
+			}
+		}
+		if lenOK {
 			eachInstr(rw, func(ins ssa.Instruction) {
 				if cc, ok := builtinCall(ins, "copy"); ok {
 					if root(cc.Args[0]) == ssa.Value(mk) && isBufPrefix(cc.Args[1]) && instrDominates(ins, s) {
